@@ -172,7 +172,7 @@ func (h *Handler) ProcessEventBatch(ctx context.Context, req *handlerpb.ProcessE
 	h.mu.Lock()
 	h.batches++
 	wm := req.Watermark.AsTime().UnixNano()
-	if req.Watermark.AsTime().Before(time.Unix(-1<<40, 0)) {
+	if req.Watermark.AsTime().Unix() < -10_000_000_000 {
 		wm = -1 << 62 // "before the epoch": no watermark yet
 	}
 	h.Watermarks = append(h.Watermarks, wm)
